@@ -1018,12 +1018,32 @@ func c18VaultProj(app *chain.App, ctx sdk.Context) []string {
 
 func c18VaultFlow(t *testing.T, tr *Trace, rng *Rng, a *c18App) {
 	app, base := a.app, a.ctx
-	owner := sdk.AccAddress([]byte("c18-owner-address---")).String()
+	ownerAddr := sdk.AccAddress([]byte("c18-owner-address---"))
+	owner := ownerAddr.String()
 	one := math.Float64bits(1.0)
+	// fixtures for the real MsgDeposit: pair 1 = CMDX -> CMST, the owner holds collateral
+	if _, found := app.AssetKeeper.GetPair(base, 1); !found {
+		if err := app.AssetKeeper.AddPairsRecords(base, assettypes.Pair{AssetIn: 3, AssetOut: 1}); err != nil {
+			t.Fatal(err)
+		}
+	}
+	{
+		coins := sdk.NewCoins(sdk.NewCoin("ucmdx", sdk.NewInt(1000000000000)))
+		if err := app.BankKeeper.MintCoins(base, rewardstypes.ModuleName, coins); err != nil {
+			t.Fatal(err)
+		}
+		if err := app.BankKeeper.SendCoinsFromModuleToAccount(base, rewardstypes.ModuleName, ownerAddr, coins); err != nil {
+			t.Fatal(err)
+		}
+	}
 	seqs := scale(400, 6000)
-	for sq := 0; sq < seqs; sq++ {
+	for sq := -2; sq < seqs; sq++ {
 		ctx, _ := base.CacheContext()
 		mode := rng.Intn(10) // 0-2: opened while the fee was zero, fee switched on later; 3-5: flag 0 with a running fee; else: ordinary
+		corpus := sq < 0     // -2: WITNESS of defect D36 (vault deposited into while the fee is zero); -1: the same history, idle vault
+		if corpus {
+			mode = 0
+		}
 		fee := big.NewInt(int64(10000000000000000 * (1 + rng.Intn(5)))) // 1 .. 5 %
 		if rng.Chance(30) {
 			fee = c18Rate(rng)
@@ -1037,6 +1057,9 @@ func c18VaultFlow(t *testing.T, tr *Trace, rng *Rng, a *c18App) {
 		}
 		t0 := c18Now - int64(rng.Intn(int(2*c18Year)))
 		pbt := t0 - int64(rng.Intn(5000000))
+		if corpus {
+			fee, principal, t0, pbt = big.NewInt(100000000000000000), sdk.NewInt(1000000), 1700000000, 1700000000
+		}
 		startFee := fee
 		pbh, vbh := int64(5), int64(7)
 		switch {
@@ -1046,7 +1069,7 @@ func c18VaultFlow(t *testing.T, tr *Trace, rng *Rng, a *c18App) {
 			vbh = 0
 		}
 		ia0 := sdk.ZeroInt()
-		if rng.Chance(20) {
+		if rng.Chance(20) && !corpus {
 			ia0 = sdk.NewInt(int64(rng.Intn(1000000)))
 		}
 		app.AssetKeeper.SetPairsVault(ctx, assettypes.ExtendedPairVault{
@@ -1059,7 +1082,7 @@ func c18VaultFlow(t *testing.T, tr *Trace, rng *Rng, a *c18App) {
 		app.VaultKeeper.SetAppExtendedPairVaultMappingData(ctx, vaulttypes.AppExtendedPairVaultMappingData{AppId: 1, ExtendedPairId: 1, VaultIds: []uint64{1},
 			TokenMintedAmount: principal, CollateralLockedAmount: sdk.NewInt(1)})
 		trk := "none"
-		if rng.Chance(25) {
+		if rng.Chance(25) && !corpus {
 			f0 := c18DecI(int64(rng.U64() % 1000000000000000000))
 			app.Rewardskeeper.SetVaultInterestTracker(ctx, rewardstypes.VaultInterestTracker{VaultId: 1, AppMappingId: 1, InterestAccumulated: f0})
 			trk = c18Raw(f0)
@@ -1075,6 +1098,22 @@ func c18VaultFlow(t *testing.T, tr *Trace, rng *Rng, a *c18App) {
 		}
 		now := t0
 		height := int64(100)
+		// ghost of the specification (never reads the stamps after this point): fee in force, time of the last fee update, time
+		// the vault was last settled
+		gFee, gSeg, gSettled := new(big.Int).Set(startFee), pbt, t0
+		if vbh == 0 {
+			gSettled = pbt
+		}
+		legit := func(at int64) string {
+			if gFee.Sign() == 0 {
+				return "-"
+			}
+			start := gSeg
+			if gSettled > start {
+				start = gSettled
+			}
+			return c18PowField(c18Dec(gFee), at-start)
+		}
 		gap := func() int64 {
 			switch rng.Intn(6) {
 			case 0:
@@ -1117,13 +1156,37 @@ func c18VaultFlow(t *testing.T, tr *Trace, rng *Rng, a *c18App) {
 					DebtCeiling: sdk.NewInt(0), DebtFloor: sdk.NewInt(0), MinUsdValueLeft: 0})
 			})
 			o := c18Outcome(panicked, err)
-			tr.Line("va.update", append([]string{i64(now), i64(height), newFee.String(), u(pb), o}, c18VaultProj(app, sctx)...)...)
+			tr.Line("va.update", append(append([]string{i64(now), i64(height), newFee.String(), u(pb), o}, c18VaultProj(app, sctx)...), legit(now))...)
 			tr.Count("va:update:" + o)
+			if o == "ok" {
+				if gFee.Sign() != 0 {
+					gSettled = now
+				}
+				gSeg, gFee = now, new(big.Int).Set(newFee)
+			}
+		}
+		// a real MsgDeposit of collateral: accrues like MsgVaultInterestCalc, then re-stamps the vault
+		deposit := func(amt int64) {
+			now += gap()
+			height++
+			sctx := ctx.WithBlockTime(time.Unix(now, 0)).WithBlockHeight(height)
+			pb := powFor(sctx, now, curFee(sctx))
+			lg := legit(now)
+			o := c18Deliver(app, sctx, vaulttypes.NewMsgDepositRequest(ownerAddr, 1, 1, 1, sdk.NewInt(amt)))
+			tr.Line("va.deposit", append(append([]string{i64(now), i64(height), i64(amt), u(pb), o}, c18VaultProj(app, sctx)...), lg)...)
+			tr.Count("va:deposit:" + o)
+			if o == "ok" {
+				if gFee.Sign() == 0 {
+					tr.Count("va:deposit:at_zero_fee")
+				}
+				gSettled = now
+			}
 		}
 		calc := func(c sdk.Context, at, h int64, kind string) string {
 			sctx := c.WithBlockTime(time.Unix(at, 0)).WithBlockHeight(h)
 			v, _ := app.VaultKeeper.GetVault(sctx, 1)
 			pb := powFor(sctx, at, curFee(sctx))
+			lg := legit(at)
 			debt := v.AmountOut.Add(v.InterestAccumulated)
 			var o string
 			if kind == "direct" {
@@ -1145,7 +1208,14 @@ func c18VaultFlow(t *testing.T, tr *Trace, rng *Rng, a *c18App) {
 				f = []string{i64(at), i64(h), u(pb), o}
 			}
 			v2, _ := app.VaultKeeper.GetVault(sctx, 1)
-			tr.Line(line, append(f, c18VaultProj(app, sctx)...)...)
+			if kind == "once" {
+				tr.Line(line, append(f, c18VaultProj(app, sctx)...)...)
+			} else {
+				tr.Line(line, append(append(f, c18VaultProj(app, sctx)...), lg)...)
+				if o == "ok" && gFee.Sign() != 0 && at >= gSettled {
+					gSettled = at
+				}
+			}
 			tr.Count("va:" + kind + ":" + o)
 			if o == "ok" && kind != "once" {
 				if v2.InterestAccumulated.GT(v.InterestAccumulated) {
@@ -1159,8 +1229,39 @@ func c18VaultFlow(t *testing.T, tr *Trace, rng *Rng, a *c18App) {
 			}
 			return o
 		}
-		if mode <= 2 { // the fee is switched on through the real binding
+		if corpus {
+			// fee zero since t0; (-2) the owner deposits collateral after a day; the fee is switched on after a year; interest is
+			// calculated in the block of the switch-on
+			day := int64(86400)
+			if sq == -2 {
+				now += day - 1
+				gapSave := gap
+				gap = func() int64 { return 1 }
+				deposit(5)
+				gap = gapSave
+			}
+			now = t0 + 365*day
+			{
+				gapSave := gap
+				gap = func() int64 { return 0 }
+				update(fee)
+				gap = gapSave
+			}
+			calc(ctx, now, height+1, "msg")
+			height++
+			calc(ctx, now+30*day, height+1, "msg")
+			tr.Count("va:corpus")
+			continue
+		}
+		if mode <= 2 { // the fee is switched on through the real binding, possibly after the vault was deposited into
+			if rng.Chance(35) {
+				deposit(int64(1 + rng.Intn(1000)))
+			}
 			update(fee)
+			if rng.Chance(50) {
+				calc(ctx, now, height+1, "msg") // in the block of the switch-on
+				height++
+			}
 		}
 		steps := rng.Range(3, scale(9, 14))
 		for st := 0; st < steps; st++ {
@@ -1169,7 +1270,22 @@ func c18VaultFlow(t *testing.T, tr *Trace, rng *Rng, a *c18App) {
 				p = 99 // start with repeated triggers while the vault still carries the flag
 			}
 			switch {
-			case p < 12:
+			case p < 5:
+				deposit(int64(1 + rng.Intn(1000)))
+			case p < 9: // zero-fee window: off, idle or deposited into, on again, calculation at once or later
+				if curFee(ctx).IsZero() == false {
+					update(big.NewInt(0))
+				}
+				if rng.Chance(40) {
+					deposit(int64(1 + rng.Intn(1000)))
+				}
+				update(big.NewInt(int64(10000000000000000 * (1 + rng.Intn(9)))))
+				if rng.Chance(60) {
+					calc(ctx, now, height+1, "msg")
+					height++
+				}
+				tr.Count("va:zero_window")
+			case p < 16:
 				nf := fee
 				switch rng.Intn(3) {
 				case 0:
@@ -1178,11 +1294,11 @@ func c18VaultFlow(t *testing.T, tr *Trace, rng *Rng, a *c18App) {
 					nf = big.NewInt(int64(10000000000000000 * (1 + rng.Intn(9))))
 				}
 				update(nf)
-			case p < 22:
+			case p < 24:
 				now += gap()
 				height++
 				calc(ctx, now, height, "direct")
-			case p < 26:
+			case p < 27:
 				// the clock never runs backwards on chain; exercised as the error path (message rejected, nothing written)
 				height++
 				calc(ctx, now-int64(1+rng.Intn(1000)), height, "msg")
